@@ -179,8 +179,10 @@ class Build:
             # tool main()s end in exit(); their cleanup variables only release memory at process
             # end and have no bearing on the exit status / option handling that C20 is about.
             # CBMC ignores the attribute, which is exactly "not released": no lowering.
-            lp = os.path.join(self.low, short(unit) + '.c')
-            open(lp, 'w').write(text)
+            d = self.low if not suffix else os.path.join(self.low, suffix)
+            os.makedirs(d, exist_ok=True)
+            lp = os.path.join(d, short(unit) + '.c')
+            open(lp, 'w').write(text + append)
             self.lower_report[unit] = [{'function': '(tool unit: cleanup attribute left in place, ignored by CBMC)'}]
             return lp
         try:
